@@ -921,6 +921,136 @@ Definition bad_agrees (ts : list token) (st : status) : bool :=
   | _ => status_eqb st StErr
   end.
 
+(** ** Several readers of one captured value, advanced in any order
+
+    Every call of val.TokenReader() makes a reader of its own: in the model a
+    reader is a value, so the readers of one raw value cannot influence each
+    other.  The harness drives several readers of ONE captured value by a
+    schedule and the oracle compares with the product of independent machines
+    ([run_product_projects] in XmlProofs.v: the product run projects to each
+    single run).  A Decode in between (its own TokenReader()) does not touch
+    them either. *)
+
+(** One call of Token() as the caller sees it.  (After a panic the state is
+    left as it was: not observed, the captured values used here never panic.) *)
+Inductive ocall : Type := CTok (t : otoken) | CEof | CPanic.
+
+Definition call (r : reader) : ocall * reader :=
+  match next r with
+  | STok t r' => (CTok t, r')
+  | SEof r' => (CEof, r')
+  | SPanic => (CPanic, r)
+  end.
+
+(** [k] calls on one reader. *)
+Fixpoint run1 (k : nat) (r : reader) : list ocall :=
+  match k with
+  | 0 => []
+  | S k' => let '(c, r') := call r in c :: run1 k' r'
+  end.
+
+Fixpoint set_nth {A : Type} (i : nat) (x : A) (l : list A) : list A :=
+  match l, i with
+  | [], _ => []
+  | _ :: r, 0 => x :: r
+  | y :: r, S i' => y :: set_nth i' x r
+  end.
+
+(** The readers [rs] advanced by the schedule [sched] (which reader makes the
+    next call): the calls in the order they are made. *)
+Fixpoint run_product (rs : list reader) (sched : list nat) : list (nat * ocall) :=
+  match sched with
+  | [] => []
+  | i :: s =>
+      match nth_error rs i with
+      | Some r => let '(c, r') := call r in (i, c) :: run_product (set_nth i r' rs) s
+      | None => run_product rs s
+      end
+  end.
+
+Definition ocall_eqb (a b : ocall) : bool :=
+  match a, b with
+  | CTok x, CTok y => otoken_eqb x y
+  | CEof, CEof | CPanic, CPanic => true
+  | _, _ => false
+  end.
+
+(** An action of the harness: reader [i] makes a call, or the value is read
+    through the decoder Decode builds (to the end). *)
+Inductive iact : Type := IRead (i : nat) | IDecode.
+Inductive iobs : Type := IOCall (c : ocall) | IODec (d : res (list otoken)).
+
+Definition sched_of (acts : list iact) : list nat :=
+  flat_map (fun a => match a with IRead i => [i] | IDecode => [] end) acts.
+Definition calls_of (obs : list iobs) : list ocall :=
+  flat_map (fun o => match o with IOCall c => [c] | IODec _ => [] end) obs.
+Definition decs_of (obs : list iobs) : list (res (list otoken)) :=
+  flat_map (fun o => match o with IODec d => [d] | IOCall _ => [] end) obs.
+
+Fixpoint same_shape (acts : list iact) (obs : list iobs) : bool :=
+  match acts, obs with
+  | [], [] => true
+  | IRead _ :: a, IOCall _ :: o => same_shape a o
+  | IDecode :: a, IODec _ :: o => same_shape a o
+  | _, _ => false
+  end.
+
+(** [n] readers of the value captured from [ts]. *)
+Definition inter_agrees (ts : list token) (n : nat) (acts : list iact) (obs : list iobs) : bool :=
+  match ts with
+  | TStart nm a :: body =>
+      match capture nm a body with
+      | Some (Ok (v, _)) =>
+          match token_reader v with
+          | Ok r0 =>
+              same_shape acts obs
+              && list_eqb (fun x y => Nat.eqb (fst x) (fst y) && ocall_eqb (snd x) (snd y))
+                          (run_product (repeat r0 n) (sched_of acts))
+                          (combine (sched_of acts) (calls_of obs))
+              && forallb (fun d => res_eqb (list_eqb otoken_eqb) d (retrans (fst (drain v)))) (decs_of obs)
+          | _ => false
+          end
+      | _ => false
+      end
+  | _ => false
+  end.
+
+(** The property on the observation alone, without the reader model: what each
+    reader delivers is the token stream of the document (minus declarations) —
+    a prefix of it as long as it has not ended, all of it when io.EOF comes,
+    and io.EOF from then on; every decoder view denotes the document's tree. *)
+Fixpoint calls_ok (expect : list token) (cs : list ocall) : bool :=
+  match cs with
+  | [] => true
+  | CTok (Some t) :: r =>
+      match expect with
+      | e :: expect' => token_eqb t e && calls_ok expect' r
+      | [] => false
+      end
+  | CTok None :: _ => false
+  | CEof :: r => match expect with [] => forallb (ocall_eqb CEof) r | _ => false end
+  | CPanic :: _ => false
+  end.
+
+Definition calls_of_reader (i : nat) (acts : list iact) (obs : list iobs) : list ocall :=
+  flat_map (fun p => if Nat.eqb (fst p) i then [snd p] else []) (combine (sched_of acts) (calls_of obs)).
+
+Definition inter_spec_ok (ts : list token) (n : nat) (acts : list iact) (obs : list iobs) : bool :=
+  same_shape acts obs
+  && forallb (fun i => calls_ok (strip_stream ts) (calls_of_reader i acts obs)) (seq 0 n)
+  && forallb (fun d => match d with Ok l => same_stream (somes l) ts | _ => false end) (decs_of obs).
+
+(** ** Documents captured one after the other into ONE variable, with a copy of
+       the value kept after each capture; every copy observed at the end
+
+    Values are immutable in the model: a kept copy is the value of its own
+    document whatever was captured into the variable afterwards.  Each element
+    is (tokens of document i, observation of kept copy i). *)
+Definition seq_agrees (l : list (list token * doc_obs)) : bool :=
+  forallb (fun p => doc_agrees (fst p) (snd p)) l.
+Definition seq_spec_ok (l : list (list token * doc_obs)) : bool :=
+  forallb (fun p => doc_spec_ok (fst p) (snd p)) l.
+
 (** ** A typed value decoded from the captured raw value and from the document *)
 
 Record typed_obs : Type := {
